@@ -35,6 +35,10 @@ type segmentStack struct {
 
 	// childSegStacks recursively store child collection segmentStacks.
 	childSegStacks map[string]*segmentStack
+
+	// numBatches is the number of batches that a collection's
+	// stackDirtyTop holds for the merger; unused in other stacks.
+	numBatches int
 }
 
 func (ss *segmentStack) addRef() {
